@@ -25,14 +25,490 @@ def nbList (d hash : Nat) (inc : Bool) : List (MW × Nat) :=
     if w = C ∧ inc = false then none
     else (neighbourParts (2 ^ d) (partsOf d hash) w).map fun q => (w, numberOf d q)
 
-def chk1 (cfg : Cfg) (d : Nat) : Bool :=
-  (List.range (12 * 4 ^ d)).all fun h => MW.all.all fun dir =>
-    Topo.neighbour cfg d h dir == some ((neighbourParts (2 ^ d) (partsOf d h) dir).map (numberOf d))
+/-! ## cell numbers and parts -/
 
-def chk3 (cfg : Cfg) (d : Nat) : Bool :=
-  (List.range (12 * 4 ^ d)).all fun h => [true, false].all fun inc =>
-    Topo.neighbours cfg d h inc == some (nbList d h inc)
+theorem nside_eq (d : Nat) : Layer.nside d = 2 ^ d := RingBij.nside_eq d
 
-#eval (List.range 4).map fun d => (chk1 {} d, chk1 { debug := false, bmi := true } d, chk3 {} d, chk3 { debug := false, bmi := true } d)
+theorem nHash_eq (d : Nat) : Layer.nHash d = 12 * 4 ^ d := RingBij.shl2d' 12 d
+
+theorem one_le_pow (d : Nat) : 1 ≤ 2 ^ d := Nat.one_le_two_pow
+
+theorem pow_le_u32 (d : Nat) (hd : d ≤ 29) : 2 ^ d ≤ 4294967296 :=
+  Nat.le_trans (Nat.pow_le_pow_right (by decide) hd) (by decide)
+
+theorem pow_lt_u32 (d : Nat) (hd : d ≤ 29) : 2 ^ d < 4294967296 :=
+  Nat.lt_of_le_of_lt (Nat.pow_le_pow_right (by decide) hd) (by decide)
+
+theorem interleave_lt4 {d x y : Nat} (hd : d ≤ 29) (hx : x < 2 ^ d) (hy : y < 2 ^ d) : interleave x y < 4 ^ d :=
+  interleave_lt (by omega) hx hy
+
+theorem numberOf_lt (d : Nat) (hd : d ≤ 29) (q : HashParts) (hq : Valid (2 ^ d) q) : numberOf d q < 12 * 4 ^ d :=
+  (RingBij.build_spec {} rfl d hd q hq).2
+
+theorem partsOf_valid (d h : Nat) (hh : h < 12 * 4 ^ d) : Valid (2 ^ d) (partsOf d h) := by
+  have hpos : 0 < 4 ^ d := Nat.pow_pos (by decide)
+  have hz : h % 4 ^ d < 4 ^ d := Nat.mod_lt _ hpos
+  have hz2 : h % 4 ^ d / 2 < 4 ^ d := by omega
+  exact ⟨(Nat.div_lt_iff_lt_mul hpos).2 hh, RingBij.squeezeN_lt_of_lt hz, RingBij.squeezeN_lt_of_lt hz2⟩
+
+theorem numberOf_partsOf (d h : Nat) (hd : d ≤ 29) : numberOf d (partsOf d h) = h := by
+  have hpos : 0 < 4 ^ d := Nat.pow_pos (by decide)
+  have hz : h % 4 ^ d < 4 ^ d := Nat.mod_lt _ hpos
+  have h64 : h % 4 ^ d < 2 ^ 64 := by
+    have : (4 : Nat) ^ d ≤ 4 ^ 29 := Nat.pow_le_pow_right (by decide) hd
+    omega
+  unfold numberOf partsOf
+  simp only
+  rw [RingBij.interleave_squeeze _ h64, Nat.mul_comm, Nat.div_add_mod]
+
+theorem partsOf_numberOf (d : Nat) (hd : d ≤ 29) (q : HashParts) (hq : Valid (2 ^ d) q) :
+    partsOf d (numberOf d q) = q := by
+  obtain ⟨b, i, j⟩ := q
+  obtain ⟨_, hi, hj⟩ := hq
+  simp only at hi hj
+  have hz : interleave i j < 4 ^ d := interleave_lt4 hd hi hj
+  have hpos : 0 < 4 ^ d := Nat.pow_pos (by decide)
+  have h32 := pow_lt_u32 d hd
+  unfold numberOf partsOf
+  simp only
+  rw [Nat.add_comm, Nat.add_mul_div_right _ _ hpos, Nat.add_mul_mod_self_right, Nat.div_eq_of_lt hz,
+    Nat.mod_eq_of_lt hz, squeezeN_interleave_i, squeezeN_interleave_j, Nat.mod_eq_of_lt (by omega),
+    Nat.mod_eq_of_lt (by omega), Nat.zero_add]
+
+theorem numberOf_injective (d : Nat) (hd : d ≤ 29) (p q : HashParts) (hp : Valid (2 ^ d) p) (hq : Valid (2 ^ d) q)
+    (e : numberOf d p = numberOf d q) : p = q := by
+  rw [← partsOf_numberOf d hd p hp, ← partsOf_numberOf d hd q hq, e]
+
+theorem partsOf_injective (d : Nat) (hd : d ≤ 29) (h h' : Nat) (e : partsOf d h = partsOf d h') : h = h' := by
+  rw [← numberOf_partsOf d h hd, ← numberOf_partsOf d h' hd, e]
+
+/-- `decode_hash` on a cell number of the depth, any build -/
+theorem decodeHash_spec (cfg : Cfg) (d : Nat) (hd : d ≤ 29) (h : Nat) (hh : h < 12 * 4 ^ d) :
+    Layer.decodeHash cfg d h = some (partsOf d h) := by
+  rw [LayerBmi.decodeHash_eq]
+  obtain ⟨p, hp, hv, e⟩ := RingBij.decode_spec (LayerBmi.noBmi cfg) rfl d hd h hh
+  rw [hp]
+  have : partsOf d h = p := by
+    have := partsOf_numberOf d hd p hv
+    unfold numberOf at this
+    rw [← e] at this
+    exact this
+  rw [this]
+
+/-- `build_hash_from_parts` on valid parts, any build, debug assertions on or off -/
+theorem build_spec (cfg : Cfg) (d : Nat) (hd : d ≤ 29) (q : HashParts) (hq : Valid (2 ^ d) q) :
+    Layer.buildHashFromParts cfg d q.d0h q.i q.j = some (numberOf d q) := by
+  rw [LayerBmi.buildHashFromParts_eq]
+  exact (RingBij.build_spec (LayerBmi.noBmi cfg) rfl d hd q hq).1
+
+/-! ## 1. `Layer::neighbour` -/
+
+theorem buildParts_spec (cfg : Cfg) (d : Nat) (hd : d ≤ 29) (p : HashParts) (hp : Valid (2 ^ d) p) (dir : MW) :
+    buildParts cfg d (neighbourParts (2 ^ d) p dir) = some ((neighbourParts (2 ^ d) p dir).map (numberOf d)) := by
+  cases h : neighbourParts (2 ^ d) p dir with
+  | none => rfl
+  | some q =>
+    have hq := neighbourParts_valid (2 ^ d) p q dir (one_le_pow d) (pow_le_u32 d hd) hp h
+    simp [buildParts, build_spec cfg d hd q hq]
+
+/-- **C04 on cell numbers, `neighbour_spec`**: on a cell number of the depth `Layer::neighbour` does not panic (in
+    particular the `debug_assert!(i < nside && j < nside)` of `build_hash` never fires) and returns the number of the
+    parts-level neighbour.  Every depth `≤ 29`, both z-order builds, debug assertions on or off. -/
+theorem neighbour_spec (cfg : Cfg) (d : Nat) (hd : d ≤ 29) (hash : Nat) (hh : hash < 12 * 4 ^ d) (dir : MW) :
+    Topo.neighbour cfg d hash dir = some ((neighbourParts (2 ^ d) (partsOf d hash) dir).map (numberOf d)) := by
+  unfold Topo.neighbour
+  rw [if_neg (by rw [nHash_eq]; omega), decodeHash_spec cfg d hd hash hh, nside_eq]
+  exact buildParts_spec cfg d hd _ (partsOf_valid d hash hh) dir
+
+/-! ## 2. the bit-level fast path `inner_cell_neighbours` -/
+
+theorem xMask_eq (d : Nat) (hd : d ≤ 32) : Layer.xMask d = interleave (2 ^ d - 1) 0 := by
+  unfold Layer.xMask
+  split
+  · rw [show d <<< 1 = 2 * d by rw [Nat.shiftLeft_eq]; omega]
+    exact EdgeInternal.x55_shr d hd
+  · have : d = 0 := by omega
+    subst this
+    simp [interleave]
+
+theorem yMask_eq (d : Nat) (hd : d ≤ 32) : Layer.yMask d = interleave 0 (2 ^ d - 1) := by
+  unfold Layer.yMask
+  rw [xMask_eq d hd, EdgeInternal.interleave_zero_right, EdgeInternal.interleave_zero_left]
+
+theorem d0hMask_eq (d : Nat) : Layer.d0hMask d = 15 * 4 ^ d := RingBij.shl2d' 15 d
+
+theorem and_pow_sub_one {x d : Nat} (hx : x < 2 ^ d) : x &&& (2 ^ d - 1) = x := by
+  rw [Nat.and_two_pow_sub_one_eq_mod, Nat.mod_eq_of_lt hx]
+
+theorem interleave_and_xMask (d x y : Nat) (hd : d ≤ 32) (hx : x < 2 ^ d) :
+    interleave x y &&& Layer.xMask d = interleave x 0 := by
+  rw [xMask_eq d hd, EdgeInternal.interleave_and, and_pow_sub_one hx, Nat.and_zero]
+
+theorem interleave_and_yMask (d x y : Nat) (hd : d ≤ 32) (hy : y < 2 ^ d) :
+    interleave x y &&& Layer.yMask d = interleave 0 y := by
+  rw [yMask_eq d hd, EdgeInternal.interleave_and, and_pow_sub_one hy, Nat.and_zero]
+
+/-- a multiple of `4^d` has no bit in common with a number below `4^d` -/
+theorem mul_pow_and_lt (a d z : Nat) (hz : z < 4 ^ d) : a * 4 ^ d &&& z = 0 := by
+  apply Nat.eq_of_testBit_eq; intro p
+  rw [Nat.testBit_and, four_pow, Nat.testBit_mul_two_pow, Nat.zero_testBit]
+  by_cases h : 2 * d ≤ p
+  · rw [RingBij.testBit_false_of_lt hz h]; simp
+  · simp [h]
+
+theorem hash_and_small (b d z m : Nat) (hz : z < 4 ^ d) (hm : m < 4 ^ d) :
+    (b * 4 ^ d + z) &&& m = z &&& m := by
+  rw [← EdgeInternal.or_eq_add _ _ _ hz, Nat.and_or_distrib_right, mul_pow_and_lt b d m hm, Nat.zero_or]
+
+theorem xMask_lt (d : Nat) (hd : d ≤ 29) : Layer.xMask d < 4 ^ d := by
+  rw [xMask_eq d (by omega)]
+  exact interleave_lt4 hd (by have := one_le_pow d; omega) (by have := one_le_pow d; omega)
+
+theorem yMask_lt (d : Nat) (hd : d ≤ 29) : Layer.yMask d < 4 ^ d := by
+  rw [yMask_eq d (by omega)]
+  exact interleave_lt4 hd (by have := one_le_pow d; omega) (by have := one_le_pow d; omega)
+
+/-- `hash & x_mask` is the `i` coordinate spread on the even bits -/
+theorem hash_and_xMask (d : Nat) (hd : d ≤ 29) (b x y : Nat) (hx : x < 2 ^ d) (hy : y < 2 ^ d) :
+    (b * 4 ^ d + interleave x y) &&& Layer.xMask d = interleave x 0 := by
+  rw [hash_and_small b d _ _ (interleave_lt4 hd hx hy) (xMask_lt d hd), interleave_and_xMask d x y (by omega) hx]
+
+/-- `hash & y_mask` is the `j` coordinate spread on the odd bits -/
+theorem hash_and_yMask (d : Nat) (hd : d ≤ 29) (b x y : Nat) (hx : x < 2 ^ d) (hy : y < 2 ^ d) :
+    (b * 4 ^ d + interleave x y) &&& Layer.yMask d = interleave 0 y := by
+  rw [hash_and_small b d _ _ (interleave_lt4 hd hx hy) (yMask_lt d hd), interleave_and_yMask d x y (by omega) hy]
+
+/-- `hash & d0h_mask` is the base-cell part -/
+theorem hash_and_d0hMask (d : Nat) (b z : Nat) (hb : b < 16) (hz : z < 4 ^ d) :
+    (b * 4 ^ d + z) &&& Layer.d0hMask d = b * 4 ^ d := by
+  rw [d0hMask_eq, ← EdgeInternal.or_eq_add _ _ _ hz, Nat.and_or_distrib_right, Nat.and_comm z,
+    mul_pow_and_lt 15 d z hz, Nat.or_zero, four_pow, ← Nat.shiftLeft_eq, ← Nat.shiftLeft_eq,
+    ← Nat.shiftLeft_and_distrib, show (15 : Nat) = 2 ^ 4 - 1 from rfl, Nat.and_two_pow_sub_one_eq_mod,
+    Nat.mod_eq_of_lt hb]
+
+/-! ### the curve of the depth, any build -/
+
+theorem zoc_spec (cfg : Cfg) (d : Nat) (hd : d ≤ 29) : ∃ c, Layer.zoc cfg d = some c ∧ d ≤ c.bits := by
+  rw [LayerBmi.zoc_eq]
+  exact EdgeInternal.zoc_lut (LayerBmi.noBmi cfg) rfl d hd
+
+theorem ij2h_spec (cfg : Cfg) (c : ZocClass) (x y : Nat) (hx : x < 2 ^ c.bits) (hy : y < 2 ^ c.bits) :
+    Layer.ij2h cfg c x y = interleave x y := by
+  rw [LayerBmi.ij2h_eq]
+  unfold Layer.ij2h
+  rw [if_neg (by simp [LayerBmi.noBmi])]
+  exact EdgeInternal.lut_ij2h_interleave c x y hx hy
+
+theorem h2ij_i (cfg : Cfg) (c : ZocClass) (z : Nat) : Lut.ij2i c (Layer.h2ij cfg c z) = squeezeN c.bits z := by
+  rw [LayerBmi.h2ij_eq]
+  unfold Layer.h2ij
+  rw [if_neg (by simp [LayerBmi.noBmi])]
+  exact lut_h2ij_i c z
+
+theorem h2ij_j (cfg : Cfg) (c : ZocClass) (z : Nat) : Lut.ij2j c (Layer.h2ij cfg c z) = squeezeN c.bits (z / 2) := by
+  rw [LayerBmi.h2ij_eq]
+  unfold Layer.h2ij
+  rw [if_neg (by simp [LayerBmi.noBmi])]
+  exact lut_h2ij_j c z
+
+/-- the cell number with in-base-cell coordinates `(x, y)` in base cell `b` -/
+def num (d b x y : Nat) : Nat := b * 4 ^ d + interleave x y
+
+theorem or_or_num (d b x y : Nat) (hd : d ≤ 29) (hx : x < 2 ^ d) (hy : y < 2 ^ d) :
+    b * 4 ^ d ||| interleave x 0 ||| interleave 0 y = num d b x y :=
+  EdgeInternal.or_or_cell b d x 0 0 y x y (by omega) hx hy (by simp) (by simp)
+
+/-- **C04, `inner_bits_correct`**: for a cell that is not on the border of its base cell, the masked-OR bit trick of
+    `inner_cell_neighbours` equals the coordinate arithmetic (u32 wrap included), entry by entry -/
+theorem inner_bits_correct (cfg : Cfg) (d : Nat) (hd : d ≤ 29) (b i j : Nat) (hb : b < 12)
+    (hi0 : 0 < i) (hi1 : i + 1 < 2 ^ d) (hj0 : 0 < j) (hj1 : j + 1 < 2 ^ d) :
+    innerCellNeighbours cfg d (num d b i j) =
+      some [(S, num d b (i - 1) (j - 1)), (SE, num d b i (j - 1)), (E, num d b (i + 1) (j - 1)),
+            (SW, num d b (i - 1) j), (NE, num d b (i + 1) j), (W, num d b (i - 1) (j + 1)),
+            (NW, num d b i (j + 1)), (N, num d b (i + 1) (j + 1))] := by
+  obtain ⟨c, hc, hdc⟩ := zoc_spec cfg d hd
+  have hc32 := EdgeInternal.bits_le_32 c
+  have h32 := pow_lt_u32 d hd
+  have hi : i < 2 ^ d := by omega
+  have hj : j < 2 ^ d := by omega
+  have hz : interleave i j < 4 ^ d := interleave_lt4 hd hi hj
+  have bits : ∀ x, x < 2 ^ d → x < 2 ^ c.bits := fun x hx => EdgeInternal.pow_le_bits hdc hx
+  have e0 : num d b i j &&& Layer.d0hMask d = b * 4 ^ d := hash_and_d0hMask d b _ (by omega) hz
+  have e1 : num d b i j &&& Layer.xMask d = interleave i 0 := hash_and_xMask d hd b i j hi hj
+  have e2 : num d b i j &&& Layer.yMask d = interleave 0 j := hash_and_yMask d hd b i j hi hj
+  have e3 : interleave i 0 ||| interleave 0 j = interleave i j := by rw [EdgeInternal.interleave_or]; simp
+  have e4 : Lut.ij2i c (Layer.h2ij cfg c (interleave i j)) = i := by
+    rw [h2ij_i, RingBij.squeeze_interleave_i hdc hc32 hi]
+  have e5 : Lut.ij2j c (Layer.h2ij cfg c (interleave i j)) = j := by
+    rw [h2ij_j, RingBij.squeeze_interleave_j hdc hc32 hj]
+  have e6 : (i + 1) % 4294967296 = i + 1 := Nat.mod_eq_of_lt (by omega)
+  have e7 : (j + 1) % 4294967296 = j + 1 := Nat.mod_eq_of_lt (by omega)
+  have e8 : Layer.ij2h cfg c (i - 1) (j - 1) = interleave (i - 1) (j - 1) :=
+    ij2h_spec cfg c _ _ (bits _ (by omega)) (bits _ (by omega))
+  have e9 : Layer.ij2h cfg c (i + 1) (j + 1) = interleave (i + 1) (j + 1) :=
+    ij2h_spec cfg c _ _ (bits _ hi1) (bits _ hj1)
+  unfold innerCellNeighbours
+  simp only [hc, e0, e1, e2, e3, e4, e5, e6, e7, e8, e9]
+  rw [if_neg (by omega)]
+  rw [interleave_and_xMask d (i - 1) (j - 1) (by omega) (by omega),
+    interleave_and_yMask d (i - 1) (j - 1) (by omega) (by omega),
+    interleave_and_xMask d (i + 1) (j + 1) (by omega) hi1,
+    interleave_and_yMask d (i + 1) (j + 1) (by omega) hj1]
+  simp only [or_or_num d b _ _ hd hi1 hj1, or_or_num d b _ _ hd hi hj1,
+    or_or_num d b _ _ hd hi1 hj, or_or_num d b (i - 1) (j - 1) hd (by omega) (by omega),
+    or_or_num d b (i - 1) j hd (by omega) hj, or_or_num d b (i - 1) (j + 1) hd (by omega) hj1,
+    or_or_num d b i (j - 1) hd hi (by omega), or_or_num d b (i + 1) (j - 1) hd hi1 (by omega)]
+
+/-! ## 3. `Layer::neighbours` -/
+
+theorem interleave_x_inj {x x' : Nat} (hx : x < 2 ^ 32) (hx' : x' < 2 ^ 32) (e : interleave x 0 = interleave x' 0) :
+    x = x' := by
+  have := congrArg (squeezeN 32) e
+  rwa [squeezeN_interleave_i, squeezeN_interleave_i, Nat.mod_eq_of_lt hx, Nat.mod_eq_of_lt hx'] at this
+
+theorem interleave_y_inj {y y' : Nat} (hy : y < 2 ^ 32) (hy' : y' < 2 ^ 32) (e : interleave 0 y = interleave 0 y') :
+    y = y' := by
+  have : squeezeN 32 (interleave 0 y / 2) = squeezeN 32 (interleave 0 y' / 2) := by rw [e]
+  rwa [squeezeN_interleave_j, squeezeN_interleave_j, Nat.mod_eq_of_lt hy, Nat.mod_eq_of_lt hy'] at this
+
+theorem interleave_zero_zero : interleave 0 0 = 0 := by simp [interleave]
+
+/-- the border test of `neighbours` on the masked bits is the border test on the coordinates -/
+theorem isInBaseCellBorder_iff (d : Nat) (hd : d ≤ 29) (b i j : Nat) (hi : i < 2 ^ d) (hj : j < 2 ^ d) :
+    isInBaseCellBorder d (num d b i j &&& Layer.xMask d) (num d b i j &&& Layer.yMask d) = true ↔
+      (i = 0 ∨ i + 1 = 2 ^ d ∨ j = 0 ∨ j + 1 = 2 ^ d) := by
+  have h32 : 2 ^ d < 2 ^ 32 := pow_lt_u32 d hd
+  have h1 := one_le_pow d
+  unfold isInBaseCellBorder
+  rw [show num d b i j = b * 4 ^ d + interleave i j from rfl, hash_and_xMask d hd b i j hi hj,
+    hash_and_yMask d hd b i j hi hj, xMask_eq d (by omega), yMask_eq d (by omega)]
+  simp only [Bool.or_eq_true, beq_iff_eq]
+  constructor
+  · rintro (((h | h) | h) | h)
+    · exact Or.inl (interleave_x_inj (by omega) (by omega) (h.trans interleave_zero_zero.symm))
+    · have := interleave_x_inj (x' := 2 ^ d - 1) (by omega) (by omega) h; omega
+    · exact Or.inr (Or.inr (Or.inl (interleave_y_inj (by omega) (by omega) (h.trans interleave_zero_zero.symm))))
+    · have := interleave_y_inj (y' := 2 ^ d - 1) (by omega) (by omega) h; omega
+  · rintro (h | h | h | h)
+    · subst h; exact Or.inl (Or.inl (Or.inl interleave_zero_zero))
+    · have : i = 2 ^ d - 1 := by omega
+      subst this; exact Or.inl (Or.inl (Or.inr rfl))
+    · subst h; exact Or.inl (Or.inr interleave_zero_zero)
+    · have : j = 2 ^ d - 1 := by omega
+      subst this; exact Or.inr rfl
+
+/-- raw association list in the order of the code (`S SE E SW NE W NW N`) for the per-direction results `G` -/
+def rawOf (G : MW → Option Nat) : List (MW × Nat) := dirs8.filterMap fun k => (G k).map fun v => (k, v)
+
+theorem foldlM_spec (f : MW → Option (Option Nat)) (G : MW → Option Nat) (hf : ∀ k, f k = some (G k)) (ks : List MW)
+    (acc : List (MW × Nat)) :
+    ks.foldlM (fun acc dir => match f dir with
+      | none => none
+      | some none => some acc
+      | some (some h) => some (acc ++ [(dir, h)])) acc
+      = some (acc ++ ks.filterMap fun k => (G k).map fun v => (k, v)) := by
+  induction ks generalizing acc with
+  | nil => simp
+  | cons k ks ih =>
+    rw [List.foldlM_cons, hf k, List.filterMap_cons]
+    cases hg : G k with
+    | none => simpa using ih acc
+    | some v => simpa using ih (acc ++ [(k, v)])
+
+/-- the per-direction results of a cell number: numbers of the parts-level neighbours -/
+def nbG (d hash : Nat) (w : MW) : Option Nat := (neighbourParts (2 ^ d) (partsOf d hash) w).map (numberOf d)
+
+/-- the border path computes the neighbours direction by direction (true of every cell, on a border or not) -/
+theorem edgeCellNeighbours_spec (cfg : Cfg) (d : Nat) (hd : d ≤ 29) (hash : Nat) (hh : hash < 12 * 4 ^ d) :
+    edgeCellNeighbours cfg d hash = some (rawOf (nbG d hash)) := by
+  unfold edgeCellNeighbours
+  rw [decodeHash_spec cfg d hd hash hh, nside_eq]
+  have := foldlM_spec (fun dir => buildParts cfg d (neighbourParts (2 ^ d) (partsOf d hash) dir)) (nbG d hash)
+    (fun k => buildParts_spec cfg d hd _ (partsOf_valid d hash hh) k) dirs8 []
+  rw [List.nil_append] at this
+  exact this
+
+theorem offsets_range (dir : MW) :
+    -1 ≤ dir.offsetSe ∧ dir.offsetSe ≤ 1 ∧ -1 ≤ dir.offsetSw ∧ dir.offsetSw ≤ 1 := by
+  cases dir <;> decide
+
+/-- inside a base cell the neighbour is obtained by shifting the coordinates -/
+theorem neighbourParts_inner (n b i j : Nat) (dir : MW) (hi0 : 0 < i) (hi1 : i + 1 < n) (hj0 : 0 < j)
+    (hj1 : j + 1 < n) :
+    neighbourParts n ⟨b, i, j⟩ dir =
+      some ⟨b, ((i : Int) + dir.offsetSe).toNat, ((j : Int) + dir.offsetSw).toNat⟩ := by
+  obtain ⟨h1, h2, h3, h4⟩ := offsets_range dir
+  have hz : ∀ c : Int, 0 ≤ c → c < n → zone n c = 0 := by
+    intro c h1 h2; unfold zone; omega
+  rw [neighbourParts_eq_nbAt]
+  unfold nbAt
+  simp only
+  rw [hz _ (by omega) (by omega), hz _ (by omega) (by omega)]
+  simp [nbZ, ofOffsets, ofIndex]
+
+theorem rawOf_inner (d b i j : Nat) (hd : d ≤ 29) (hb : b < 12) (hi0 : 0 < i) (hi1 : i + 1 < 2 ^ d) (hj0 : 0 < j)
+    (hj1 : j + 1 < 2 ^ d) :
+    rawOf (nbG d (num d b i j)) =
+      [(S, num d b (i - 1) (j - 1)), (SE, num d b i (j - 1)), (E, num d b (i + 1) (j - 1)),
+       (SW, num d b (i - 1) j), (NE, num d b (i + 1) j), (W, num d b (i - 1) (j + 1)),
+       (NW, num d b i (j + 1)), (N, num d b (i + 1) (j + 1))] := by
+  have hp : partsOf d (num d b i j) = ⟨b, i, j⟩ :=
+    partsOf_numberOf d hd ⟨b, i, j⟩ ⟨hb, (by show i < 2 ^ d; omega), (by show j < 2 ^ d; omega)⟩
+  have e1 : ((i : Int) + -1).toNat = i - 1 := by omega
+  have e2 : ((j : Int) + -1).toNat = j - 1 := by omega
+  have e3 : ((i : Int) + 1).toNat = i + 1 := by omega
+  have e4 : ((j : Int) + 1).toNat = j + 1 := by omega
+  have e5 : ((i : Int) + 0).toNat = i := by omega
+  have e6 : ((j : Int) + 0).toNat = j := by omega
+  unfold rawOf nbG
+  rw [hp]
+  simp only [dirs8, List.filterMap_cons, List.filterMap_nil,
+    neighbourParts_inner (2 ^ d) b i j _ hi0 hi1 hj0 hj1, Option.map_some, offsetSe, offsetSw, e1, e2, e3, e4, e5, e6,
+    numberOf, num]
+
+/-- the fast path, on a cell number -/
+theorem innerCellNeighbours_spec (cfg : Cfg) (d : Nat) (hd : d ≤ 29) (b i j : Nat) (hb : b < 12)
+    (hi0 : 0 < i) (hi1 : i + 1 < 2 ^ d) (hj0 : 0 < j) (hj1 : j + 1 < 2 ^ d) :
+    innerCellNeighbours cfg d (num d b i j) = some (rawOf (nbG d (num d b i j))) := by
+  rw [inner_bits_correct cfg d hd b i j hb hi0 hi1 hj0 hj1, rawOf_inner d b i j hd hb hi0 hi1 hj0 hj1]
+
+theorem find_filterMap_key (ks : List MW) (G : MW → Option Nat) (w : MW) :
+    (ks.filterMap fun k => (G k).map fun v => (k, v)).find? (·.1 == w) =
+      if w ∈ ks then (G w).map (fun v => (w, v)) else none := by
+  induction ks with
+  | nil => simp
+  | cons k ks ih =>
+    rw [List.filterMap_cons]
+    by_cases hk : k = w
+    · subst hk
+      cases hg : G k with
+      | none => simp [hg, ih]
+      | some v => simp
+    · have hk' : ¬ w = k := fun e => hk e.symm
+      cases hg : G k with
+      | none => simp [ih, hk']
+      | some v => simp [ih, hk, hk']
+
+theorem filterMap_congr' {α β : Type} {f g : α → Option β} (l : List α) (h : ∀ a ∈ l, f a = g a) :
+    l.filterMap f = l.filterMap g := by
+  induction l with
+  | nil => rfl
+  | cons a l ih =>
+    rw [List.filterMap_cons, List.filterMap_cons, h a (by simp), ih (fun x hx => h x (by simp [hx]))]
+
+theorem mem_dirs8_iff (w : MW) : w ∈ dirs8 ↔ w ≠ C := by cases w <;> simp [dirs8]
+
+theorem find_rawOf (G : MW → Option Nat) (w : MW) :
+    (rawOf G).find? (·.1 == w) = if w = C then none else (G w).map (fun v => (w, v)) := by
+  unfold rawOf
+  rw [find_filterMap_key]
+  simp only [mem_dirs8_iff]
+  by_cases h : w = C <;> simp [h]
+
+/-- reading the association list in `MainWind` index order -/
+theorem reorder (G : MW → Option Nat) (inc : Bool) (h : Nat) :
+    MW.all.filterMap (fun w => (if inc = true then rawOf G ++ [(C, h)] else rawOf G).find? (·.1 == w)) =
+    MW.all.filterMap fun w =>
+      if w = C then (if inc = true then some (C, h) else none) else (G w).map fun v => (w, v) := by
+  apply filterMap_congr'
+  intro w _
+  cases inc
+  · simp only [Bool.false_eq_true, if_false, find_rawOf]
+  · simp only [if_true, List.find?_append, find_rawOf]
+    by_cases hw : w = C
+    · subst hw; simp
+    · have : ¬ C = w := fun e => hw e.symm
+      simp [hw, this]
+
+theorem raw_spec_num (cfg : Cfg) (d : Nat) (hd : d ≤ 29) (b i j : Nat) (hb : b < 12) (hi : i < 2 ^ d) (hj : j < 2 ^ d) :
+    (if isInBaseCellBorder d (num d b i j &&& Layer.xMask d) (num d b i j &&& Layer.yMask d) = true
+      then edgeCellNeighbours cfg d (num d b i j) else innerCellNeighbours cfg d (num d b i j)) =
+      some (rawOf (nbG d (num d b i j))) := by
+  have hlt : num d b i j < 12 * 4 ^ d := numberOf_lt d hd ⟨b, i, j⟩ ⟨hb, hi, hj⟩
+  by_cases hnb : isInBaseCellBorder d (num d b i j &&& Layer.xMask d) (num d b i j &&& Layer.yMask d) = true
+  · rw [if_pos hnb]
+    exact edgeCellNeighbours_spec cfg d hd _ hlt
+  · rw [if_neg hnb]
+    rw [isInBaseCellBorder_iff d hd b i j hi hj] at hnb
+    exact innerCellNeighbours_spec cfg d hd b i j hb (by omega) (by omega) (by omega) (by omega)
+
+/-- **C04 on cell numbers, `neighbours_spec`**: on a cell number of the depth `Layer::neighbours` does not panic and
+    returns, in `MainWind` index order (`S SE E SW C NE W NW N`), the entries `(dir, number of the parts-level neighbour)`
+    for the directions in which there is a neighbour (`C` iff `include_center`).  Both the border path
+    (`edge_cell_neighbours`) and the bit-level fast path (`inner_cell_neighbours`) give this.  Every depth `≤ 29`, both
+    z-order builds, debug assertions on or off. -/
+theorem neighbours_spec (cfg : Cfg) (d : Nat) (hd : d ≤ 29) (hash : Nat) (hh : hash < 12 * 4 ^ d) (inc : Bool) :
+    Topo.neighbours cfg d hash inc = some (nbList d hash inc) := by
+  have hv := partsOf_valid d hash hh
+  have hnum : num d (partsOf d hash).d0h (partsOf d hash).i (partsOf d hash).j = hash := numberOf_partsOf d hash hd
+  have hr := raw_spec_num cfg d hd _ _ _ hv.1 hv.2.1 hv.2.2
+  rw [hnum] at hr
+  unfold Topo.neighbours
+  rw [if_neg (by rw [nHash_eq]; omega)]
+  simp only []
+  rw [hr, Option.map_some, reorder]
+  refine congrArg some ?_
+  unfold nbList
+  apply filterMap_congr'
+  intro w _
+  by_cases hw : w = C
+  · subst hw
+    cases inc <;> simp [neighbourParts_C _ _ hv, numberOf_partsOf d hash hd]
+  · simp only [hw, nbG, if_false, false_and, Option.map_map]
+    rfl
+
+/-- `inner_bits_correct` stated on a cell number: when the border test of `neighbours` fails, the cell is strictly
+    inside its base cell and the fast path returns the eight shifted cells -/
+theorem inner_bits_correct_hash (cfg : Cfg) (d : Nat) (hd : d ≤ 29) (hash : Nat) (hh : hash < 12 * 4 ^ d)
+    (hnb : isInBaseCellBorder d (hash &&& Layer.xMask d) (hash &&& Layer.yMask d) = false) :
+    0 < (partsOf d hash).i ∧ (partsOf d hash).i + 1 < 2 ^ d ∧ 0 < (partsOf d hash).j ∧ (partsOf d hash).j + 1 < 2 ^ d ∧
+    innerCellNeighbours cfg d hash =
+      some [(S, num d (partsOf d hash).d0h ((partsOf d hash).i - 1) ((partsOf d hash).j - 1)),
+            (SE, num d (partsOf d hash).d0h (partsOf d hash).i ((partsOf d hash).j - 1)),
+            (E, num d (partsOf d hash).d0h ((partsOf d hash).i + 1) ((partsOf d hash).j - 1)),
+            (SW, num d (partsOf d hash).d0h ((partsOf d hash).i - 1) (partsOf d hash).j),
+            (NE, num d (partsOf d hash).d0h ((partsOf d hash).i + 1) (partsOf d hash).j),
+            (W, num d (partsOf d hash).d0h ((partsOf d hash).i - 1) ((partsOf d hash).j + 1)),
+            (NW, num d (partsOf d hash).d0h (partsOf d hash).i ((partsOf d hash).j + 1)),
+            (N, num d (partsOf d hash).d0h ((partsOf d hash).i + 1) ((partsOf d hash).j + 1))] := by
+  obtain ⟨hb, hi, hj⟩ := partsOf_valid d hash hh
+  have hnum : num d (partsOf d hash).d0h (partsOf d hash).i (partsOf d hash).j = hash := numberOf_partsOf d hash hd
+  have h1 := isInBaseCellBorder_iff d hd (partsOf d hash).d0h _ _ hi hj
+  rw [hnum, hnb] at h1
+  have h2 : ¬ ((partsOf d hash).i = 0 ∨ (partsOf d hash).i + 1 = 2 ^ d ∨ (partsOf d hash).j = 0 ∨
+      (partsOf d hash).j + 1 = 2 ^ d) := fun h => by simpa using h1.2 h
+  have h3 := inner_bits_correct cfg d hd (partsOf d hash).d0h (partsOf d hash).i (partsOf d hash).j hb
+    (by omega) (by omega) (by omega) (by omega)
+  rw [hnum] at h3
+  exact ⟨by omega, by omega, by omega, by omega, h3⟩
+
+/-! ## tests by kernel evaluation and non-vacuity -/
+
+/-- **test**: `neighbour_spec` and `neighbours_spec` evaluated on every cell at depths 0 and 1, both builds
+    (`#eval` confirms depths `≤ 3`) -/
+def chk (cfg : Cfg) (d : Nat) : Bool :=
+  (List.range (12 * 4 ^ d)).all fun h =>
+    (MW.all.all fun dir =>
+      Topo.neighbour cfg d h dir == some ((neighbourParts (2 ^ d) (partsOf d h) dir).map (numberOf d))) &&
+    [true, false].all fun inc => Topo.neighbours cfg d h inc == some (nbList d h inc)
+
+example : chk {} 0 = true ∧ chk { debug := false, bmi := true } 0 = true ∧ chk {} 1 = true := by decide +kernel
+
+/-- the hypotheses are satisfiable: depth 3, cell 100 = base cell 1, `(i, j) = (2, 4)`, an inner cell -/
+example : Topo.neighbours {} 3 100 true =
+    some [(S, 75), (SE, 78), (E, 79), (SW, 97), (C, 100), (NE, 101), (W, 99), (NW, 102), (N, 103)] := by
+  rw [neighbours_spec {} 3 (by decide) 100 (by decide) true]; decide +kernel
+
+example : partsOf 3 100 = ⟨1, 2, 4⟩ ∧
+    isInBaseCellBorder 3 (100 &&& Layer.xMask 3) (100 &&& Layer.yMask 3) = false := by decide +kernel
+
+/-- a border cell with a missing neighbour: depth 2, cell 5 = base cell 0, `(i, j) = (3, 0)` has no `E` neighbour -/
+example : partsOf 2 5 = ⟨0, 3, 0⟩ ∧ Topo.neighbour {} 2 5 E = some none ∧
+    (Topo.neighbours {} 2 5 false).map List.length = some 7 := by decide +kernel
 
 end Hpx.TopoLift
+
+#print axioms Hpx.TopoLift.neighbour_spec
+#print axioms Hpx.TopoLift.inner_bits_correct
+#print axioms Hpx.TopoLift.inner_bits_correct_hash
+#print axioms Hpx.TopoLift.neighbours_spec
